@@ -5,6 +5,10 @@ mod ops_core;
 mod canon;
 mod ops_types;
 mod ops_sink;
+mod ops_seq;
+
+#[global_allocator]
+static GLOBAL: ops_seq::Counting = ops_seq::Counting;
 
 use std::io::{BufRead, BufWriter, Write};
 
@@ -19,6 +23,9 @@ fn handler(op: &str) -> Option<Handler> {
         "PFX" => Some(ops_types::pfx_handler),
         "SINK" => Some(ops_sink::sink_handler),
         "SINKE" => Some(ops_sink::sinke_handler),
+        "SEQ" => Some(ops_seq::seq_handler),
+        "SZ" => Some(ops_seq::sz_handler),
+        "DROPS" => Some(ops_seq::drops_handler),
         _ => None
     }
 }
